@@ -736,6 +736,9 @@ func runC06(w *World, r *Report) {
 	}
 
 	// ---- sentinel-match
+	r.Rule("C06.passthrough-pairs-sided", "a pass-through node's input / output stream-convert pairs come from one side of the neighbour it is typed from (shared with C04.role-uniform, package compose): an interrupt before such a node in Stream mode saves its pending stream through that pair", 5)
+	ruleRoleUniform(w, r, "C06.passthrough-pairs-sided", "compose")
+
 	r.Rule("C06.sentinel-match", "InterruptAndRerun is matched with errors.Is (never ==) wherever the framework classifies a task error", 2)
 	sentinelMatchChecks(w, r, "C06.sentinel-match")
 	_ = strings.Join
